@@ -41,6 +41,9 @@ type Case struct {
 	// 2 = -0 for floating destinations (0 for integer ones). A result that merely compares equal
 	// to what the destination already holds must still be stored.
 	DstFill int `json:"dstFill,omitempty"`
+	// SameRoot (same source and destination element type only): both windows are cut from
+	// one parent buffer, the destination window Src.Kr frames behind the source's root part.
+	SameRoot bool `json:"sameRoot,omitempty"`
 }
 
 func build(name string, C int, w Win) (root, win kit.AnyBuf, model []kit.Val, off, n int) {
@@ -75,6 +78,12 @@ func Check(c *Case) (res kit.Result) {
 		}
 	}
 	C := c.C
+	if c.SameRoot {
+		if c.S != c.D || c.Src.Partial > 0 || c.Dst.Partial > 0 || c.DstFill != 0 {
+			return kit.Result{}
+		}
+		return checkSameRoot(c, e)
+	}
 	sroot, src, _, soff, sn := build(c.S, C, c.Src)
 	droot, dst, dmodel, doff, dn := build(c.D, C, c.Dst)
 	// source samples are written through the root (not through the window header)
@@ -181,11 +190,59 @@ func Check(c *Case) (res kit.Result) {
 	return
 }
 
+// checkSameRoot: source and destination are disjoint windows of one parent.
+func checkSameRoot(c *Case, e *convtab.Entry) (res kit.Result) {
+	C := c.C
+	total := c.Src.Kr + c.Dst.Kr
+	root := kit.AnyRoot(c.S, C, total)
+	src := root.Slice(c.Src.A, c.Src.B)
+	dst := root.Slice(c.Src.Kr+c.Dst.A, c.Src.Kr+c.Dst.B)
+	soff, sn := C*c.Src.A, C*(c.Src.B-c.Src.A)
+	doff, dn := C*(c.Src.Kr+c.Dst.A), C*(c.Dst.B-c.Dst.A)
+	for k := 0; k < sn; k++ {
+		root.Set(soff+k, c.Vals[k%len(c.Vals)])
+	}
+	model := root.Snap()
+	sh, dh := src.Hdr(), dst.Hdr()
+	var ret int
+	if p, v := kit.Try(func() { ret = e.Convert(src, dst) }); p {
+		res.Failf("%s between two windows of one parent: panic: %v", e, v)
+		return
+	}
+	n := kit.Min(sn, dn)
+	if want := kit.Min(kit.CeilDiv(sn, C), kit.CeilDiv(dn, C)); ret != want {
+		res.Failf("%s between two windows of one parent returned %d, want %d", e, ret, want)
+		return
+	}
+	one := signal.Allocator{Channels: 1, Length: 1, Capacity: 1}
+	for k := 0; k < n; k++ {
+		ps, pd := kit.AllocAny(c.S, one), kit.AllocAny(c.D, one)
+		ps.Set(0, model[soff+k])
+		e.Convert(ps, pd)
+		model[doff+k] = pd.Get(0)
+	}
+	if d := kit.DiffVals("parent storage", root.Snap(), model); d != "" {
+		res.Failf("%s from frames [%d,%d) into frames [%d,%d) of the same parent: %s", e, c.Src.A, c.Src.B, c.Src.Kr+c.Dst.A, c.Src.Kr+c.Dst.B, d)
+		return
+	}
+	if src.Hdr() != sh || dst.Hdr() != dh {
+		res.Failf("%s between two windows of one parent changed a header", e)
+		return
+	}
+	if n > 0 {
+		res.Class("windowsOfOneParent")
+	}
+	return
+}
+
 func FP(c *Case) uint64 {
 	h := kit.NewHasher()
 	h.Str(c.S)
 	h.Str(c.D)
 	h.Int(c.DstFill)
+	if c.SameRoot {
+		h.Int(1)
+	}
 	h.Ints([]int{c.C, c.Src.Kr, c.Src.A, c.Src.B, c.Src.Partial, c.Src.Fix, c.Dst.Kr, c.Dst.A, c.Dst.B, c.Dst.Partial, c.Dst.Fix})
 	for _, v := range c.Vals {
 		if v.K == 'f' {
@@ -245,6 +302,11 @@ func Gen(t *rapid.T) *Case {
 	nv := rapid.IntRange(1, 10).Draw(t, "nvals")
 	for i := 0; i < nv; i++ {
 		c.Vals = append(c.Vals, GenVal(t, e.S, e.D.Kind == kit.Float))
+	}
+	if e.S.Name == e.D.Name && rapid.Bool().Draw(t, "sameRoot") {
+		c.SameRoot = true
+		c.Src.Partial, c.Dst.Partial = 0, 0
+		return c
 	}
 	if rapid.IntRange(0, 4).Draw(t, "dstFillSel") == 0 {
 		c.DstFill = rapid.IntRange(1, 2).Draw(t, "dstFill")
